@@ -115,7 +115,9 @@ def job_grid(job):
             pts = g._grid_points_from_parameter_config(pc)
         except Exception as e:  # noqa: BLE001
             out['raised'] = '%s: %s' % (type(e).__name__, str(e)[:160])
-            return out, False
+            allowed = isinstance(e, ValueError) and job['pc'].get('scale') in ('LOG', 'REVERSE_LOG') and pc.type == vz.ParameterType.DOUBLE \
+                and (pc.bounds[0] <= 0 or pc.bounds[1] <= 0)
+            return out, not allowed
     out['points'] = [R15.show(x) for x in pts][:20]
     bad = (not pts) or any(x is not None and not member(pc, x) for x in pts)
     return out, bad
@@ -312,7 +314,10 @@ def main():
         res, bad = standin(sys.argv[2] if len(sys.argv) > 2 else 'quick')
     else:
         job = json.load(open(a))['job']
-        res, bad = JOBS[job['kind']](job)
+        try:
+            res, bad = JOBS[job['kind']](job)
+        except R15.Refused as r:
+            res, bad = {'constructor_raised': str(r), 'clauses': {'refuses_only_nonpositive_log_bounds': not r.bad}}, r.bad
     assert env.repo_clean_snapshot() == snap, 'replay modified the repository'
     print(json.dumps(res, default=repr))
     print('REPRODUCED' if bad else 'NOT-REPRODUCED')
